@@ -1104,8 +1104,24 @@ def remove_duplicate_functions(source: str, preserve: Collection[str]) -> str:
     delete = set()
     renamings = {}
 
+    # All uses of the name of a removed duplicate are renamed, so that name must not be the name
+    # of anything else anywhere, like a parameter or a variable.
+    _, definitions, fixed_names, _ = _count_identifiers(root)
+    assigned_names = {
+        node.id for node in core.walk(root, ast.Name) if not isinstance(node.ctx, ast.Load)
+    }
+
     for funcdefs in function_defs.values():
-        if len(funcdefs) == 1:
+        funcdefs = {
+            node
+            for node in funcdefs
+            if node.name in preserve
+            or not (
+                definitions[node.name] > 1
+                or fixed_names[node.name]
+                or node.name in assigned_names
+        )}
+        if len(funcdefs) <= 1:
             continue
         logger.debug(", ".join(node.name for node in funcdefs) + " are equivalent")
         preserved_nodes = {node for node in funcdefs if node.name in preserve}
